@@ -234,7 +234,7 @@ class LinearFilter(LinearFilterProperties):
       if gain == -1:
         expr = "-({expr})".format(expr=expr)
       elif gain != 1:
-        expr = "({expr}) / {gain}".format(expr=expr, gain=gain)
+        expr = "({expr}) / ({gain})".format(expr=expr, gain=gain)
 
       arg_names = ["seq", "memory", "zero"]
       arg_names.extend("b{idx}".format(idx=idx) for idx in num_iterables)
